@@ -1194,9 +1194,55 @@ pub fn run_c14(ctx: &Ctx) -> i32 {
             out.violation("C14|streams-differ", format!("integer-fill and byte-fill streams differ (first at byte {pos:?}, lengths {} / {})", res[0].len(), res[1].len()), rpj(ctx, "streams", idx, case.describe()));
         }
     });
+    // (a') many cheap blocks, many workers, and a hashing thread that is kept slow at the hook
+    // (the 16-slot hash queue fills while the feeder may run 2 x workers blocks ahead): the two
+    // delivery paths take different routes through the multi-thread context
+    let n = ctx.tier.pick(48, 1500);
+    crate::sched::perturb_only(Some(crate::sched::Policy::SlowHasher), ctx.seed);
+    run_cases(ctx, "parbytes", n, &mut out, |idx, out| {
+        let mut rng = Rng::for_case(ctx.seed, "C14.parbytes", idx);
+        let bps = *rng.pick(&gen::WIDTHS);
+        let channels = *rng.pick(&[1usize, 2, 2, 3]);
+        let block = *rng.pick(&[32usize, 48, 64]);
+        let blocks = 40 + rng.usize_below(120);
+        let len = blocks * block + rng.usize_below(block);
+        // constant within a block (cheap to encode), different between blocks (order matters for MD5)
+        let mut samples = vec![0i32; len * channels];
+        for b in 0..=blocks {
+            let v = rng.range(gen::smin(bps) as i64, gen::smax(bps) as i64) as i32;
+            for t in b * block..((b + 1) * block).min(len) {
+                for c in 0..channels {
+                    samples[t * channels + c] = v;
+                }
+            }
+        }
+        let mut cfg = config::Encoder::default();
+        cfg.multithread = true;
+        cfg.workers = NonZeroUsize::new(*rng.pick(&[9usize, 12, 16, 24, 4]));
+        cfg.block_size = block;
+        let mut case = Case { audio: Arc::new(Audio { channels, bps, rate: 44100, samples, recipe: format!("{blocks} constant blocks") }), cfg, block, mode: FillMode::Int, hint: rng.flip() };
+        let mut res = vec![];
+        for mode in [FillMode::Int, FillMode::Bytes] {
+            case.mode = mode;
+            match observe(&case) {
+                Ok(o) => res.push(o.bytes),
+                Err(e) => {
+                    report_obs_err(ctx, "parbytes", idx, &case, &e, out);
+                    return;
+                }
+            }
+        }
+        out.evaluations += 1;
+        out.distinct.insert(case.key());
+        if res[0] != res[1] {
+            let pos = res[0].iter().zip(res[1].iter()).position(|(a, b)| a != b);
+            out.violation("C14|streams-differ", format!("integer-fill and byte-fill streams differ in multi-thread mode with a slow hashing thread (first at byte {pos:?}; bytes 26..42 are the MD5)"), rpj(ctx, "parbytes", idx, case.describe()));
+        }
+    });
+    crate::sched::perturb_only(None, 0);
     let fin = Finish {
         level: "exploration",
-        rule: "'fills': channels 1..=8 x bytes-per-sample 1..=4 x capacity {32,33,64,257,4096}; each case fills a full block and then two shorter ones (lengths enumerated 0..=capacity for capacity <= 64 over the index space, boundary+random otherwise) through fill_interleaved and fill_le_bytes; the frame buffer is observed through a verbatim-only frame (Verbatim::samples()) and must equal the input exactly (no stale tail); Context md5/total/frame number must agree after every fill. 'streams': emitted bytes identical for an integer-fill and a byte-fill source in both thread modes; distinct by case description",
+        rule: "'fills': channels 1..=8 x bytes-per-sample 1..=4 x capacity {32,33,64,257,4096}; each case fills a full block and then two shorter ones (lengths enumerated 0..=capacity for capacity <= 64 over the index space, boundary+random otherwise) through fill_interleaved and fill_le_bytes; the frame buffer is observed through a verbatim-only frame (Verbatim::samples()) and must equal the input exactly (no stale tail); Context md5/total/frame number must agree after every fill. 'streams': emitted bytes identical for an integer-fill and a byte-fill source in both thread modes; 'parbytes': the same with 40-160 cheap blocks, 9-24 workers and the hashing thread slowed down at the hook so that its queue fills; distinct by case description",
         assumptions: vec!["4-byte samples are exercised at frame-buffer level only (no supported width needs 4 bytes)".into()],
         exhaustive: None,
         floors: vec![],
